@@ -304,6 +304,7 @@ def run(ctx):
             ctx.validated()
     run_line_skeletons(ctx, jinja2)
     run_loader_overlays(ctx, jinja2, cfgs, tags1)
+    run_expr_delims(ctx, jinja2, settings)
 
 
 def run_loader_overlays(ctx, jinja2, cfgs, tags1):
@@ -348,6 +349,98 @@ def run_loader_overlays(ctx, jinja2, cfgs, tags1):
         elif bad2:
             ctx.reject(case, "the base environment renders differently after the overlay was used (before, after): %r" % bad2,
                        "C13:loader-base:%s:%s" % (k, c.key()))
+        else:
+            ctx.validated()
+
+
+EXPRS = ["1", "'s'", "x", "{'a': 1}['a']", "[1, 2][0]", "(1, 2)|length", "'}}'", "'%}'", "'}'", "x ~ '#'", "1 if true else 2",
+         "{'k': {'j': 2}}['k']['j']", "'<%'", "'${'", "\"-->\"", "x|upper", "[x, {'y': [1, (2, 3)]}]|length", "'{{ not a tag }}'",
+         "x[0]", "{}|length", "'%$'", "m.a", "m['a']", "n", "n + 1", "t|join('}')"]
+
+
+def gen_expr_template(rng):
+    """abstract segments: ('t', text) | ('v', lmod, expr, rmod) | ('if', expr, [segments]) | ('for', [segments]) |
+    ('c', text) | ('r', text) | ('set', expr)"""
+    def segs(depth):
+        out = []
+        for _ in range(rng.randint(1, 4)):
+            k = rng.random()
+            if k < 0.3:
+                out.append(("t", "".join(rng.choice(["a", " ", "\n", "b\n", "z", ": "]) for _ in range(rng.randint(0, 4)))))
+            elif k < 0.6:
+                out.append(("v", rng.choice(["", "", "-", "+"]), rng.choice(EXPRS), rng.choice(["", "", "-"])))
+            elif k < 0.7 and depth < 2:
+                out.append(("if", rng.choice(["true", "x", "1 < 2", "{'a': 1}", "n"]), segs(depth + 1)))
+            elif k < 0.8 and depth < 2:
+                out.append(("for", segs(depth + 1)))
+            elif k < 0.87:
+                out.append(("c", rng.choice(["note", "a b", "multi\nline", ""])))
+            elif k < 0.94:
+                out.append(("r", rng.choice(["raw text", " ", "a\n b", ""])))
+            else:
+                out.append(("set", rng.choice(EXPRS)))
+        return out
+    return segs(0)
+
+
+def write_expr_template(cfg, segs):
+    bs, be, vs, ve, cs, ce, _, _ = cfg.d
+    out = []
+    for s in segs:
+        if s[0] == "t":
+            out.append(s[1])
+        elif s[0] == "v":
+            out.append(vs + s[1] + " " + s[2] + " " + s[3] + ve)
+        elif s[0] == "if":
+            out.append(bs + " if " + s[1] + " " + be + write_expr_template(cfg, s[2]) + bs + " endif " + be)
+        elif s[0] == "for":
+            out.append(bs + " for i in [1, 2] " + be + write_expr_template(cfg, s[1]) + bs + " endfor " + be)
+        elif s[0] == "c":
+            out.append(cs + " " + s[1] + " " + ce)
+        elif s[0] == "r":
+            out.append(bs + " raw " + be + s[1] + bs + " endraw " + be)
+        else:
+            out.append(bs + " set q = " + s[1] + " " + be)
+    return "".join(out)
+
+
+class _NS:
+    a = "attr"
+
+    def __getitem__(self, k):
+        return "item-" + str(k)
+
+
+def run_expr_delims(ctx, jinja2, settings):
+    """delimiter substitution for templates with real expressions: nested brackets / braces / parentheses (the
+    balancing stack decides where a tag ends, e.g. '}' as variable end), strings containing every set's
+    delimiters, filters, attribute / item access; context values of several kinds; all routes sampled"""
+    from markupsafe import Markup
+    names = ["default", "angle", "dollar", "asp", "linepct"]
+    datas = [dict(x="xs", m={"a": 1}, n=1, t=("p", "q")), dict(x=Markup("<b>"), m=_NS(), n=True, t=["p", "q"]),
+             dict(x=L._S("sub"), m={"a": [1]}, n=1.0, t=iter(["p", "q"]))]
+    for j in range(ctx.size(1000, 25000)):
+        segs = gen_expr_template(ctx.rng)
+        t_, l_ = ctx.rng.choice(settings)
+        nl = ctx.rng.choice(["\n", "\n", "\r\n"])
+        di = ctx.rng.randrange(len(datas))
+        outs = {}
+        srcs = {}
+        for nme in names:
+            c = L.Cfg(nme, t_, l_, nl=nl)
+            srcs[nme] = write_expr_template(c, segs)
+            d = dict(datas[di])
+            if di == 2:
+                d["t"] = iter(["p", "q"])
+            route = "environment" if nme == "default" or ctx.rng.random() < 0.7 else ctx.rng.choice(["template_ctor", "overlay_of_used", "sandboxed", "loader", "unoptimized"])
+            outs[nme] = L.safe_route(jinja2, route, c, srcs[nme], **d)
+        case = {"kind": "expr-delims", "trim_blocks": t_, "lstrip_blocks": l_, "newline_sequence": nl, "data": di, "sources": srcs}
+        ctx.case(sample=case if j < 2 else None, key=("exprdelims", t_, l_, srcs["default"]))
+        ctx.count("expr_delims")
+        ref = outs["default"]
+        bad = {k_: v for k_, v in outs.items() if v != ref}
+        if bad:
+            ctx.reject(case, "outputs differ across delimiter sets: default %r, %r" % (ref, bad), "C13:expr-delims:%r:%s%s" % (srcs["default"], t_, l_))
         else:
             ctx.validated()
 
@@ -415,7 +508,15 @@ def replay(ctx, data):
         print("replay: this file names a broken theorem/correspondence, not an input:", data.get("broken"))
         return run(ctx)
     kind = case.get("kind")
-    if kind == "loader-overlay":
+    if kind == "expr-delims":
+        outs = {}
+        for nme, src in case["sources"].items():
+            c = L.Cfg(nme, case["trim_blocks"], case["lstrip_blocks"], nl=case["newline_sequence"])
+            outs[nme] = L.safe_route(jinja2, "environment", c, src, x="xs", m={"a": 1}, n=1, t=("p", "q"))
+            print(nme, repr(src), "->", outs[nme])
+        if len(set(outs.values())) != 1:
+            ctx.reject(case, "outputs differ across delimiter sets: %r" % outs, data.get("signature"))
+    elif kind == "loader-overlay":
         c = L.Cfg.from_desc(case["cfg"])
         tp, kw = case["templates"], c.kwargs()
         base = jinja2.Environment(loader=jinja2.DictLoader(tp), cache_size=case["cache_size"])
